@@ -16,8 +16,8 @@ from mc.core import Abort, Outcome, bfs
 PROPERTY = "C46"
 LEVEL = "model_checking"
 RULE = (
-    "BFS over all histories of add(batch, additive) with batches of 1-2 coordinates "
-    "(duplicates allowed) from a fixed coordinate alphabet, values fresh integers; one "
+    "BFS over all histories of add(batch, additive) with batches of 1-3 coordinates "
+    "(all orderings, duplicates allowed; first operation also batches of 4) from a fixed coordinate alphabet, values fresh integers; one "
     "case = (dim, value_dim, first operation); non-trivial = a state in which some "
     "coordinate was written at least twice (across or inside batches) and the storage "
     "order differs from lexicographic order or a duplicate occurred; distinct by "
@@ -29,8 +29,8 @@ ASSUMPTIONS = [
     "_coords/_values are read only to de-duplicate and to check the returned permutation",
 ]
 BOUNDS = {
-    "quick": "dim 1: coords {0,1,2}, depth 3; dim 2: 4 coords, depth 2; value_dim 1 and 2",
-    "thorough": "dim 1: coords {0,1,2}, depth 4; dim 2: 4 coords, depth 3; value_dim 1 and 2",
+    "quick": "batches of 1-3 (first op up to 4) to depth 2 in dim 1 and 2; batches of 1-2 to depth 3 in dim 1; value_dim 1 and 2",
+    "thorough": "batches of 1-3 to depth 3 (value_dim 1) / 2 (value_dim 2); batches of 1-2 to depth 4 (dim 1) / 3 (dim 2, value_dim 1)",
 }
 
 ALPHA = {
@@ -43,16 +43,45 @@ ALPHA = {
 def _ops(dim):
     cs = ALPHA[dim]
     batches = [(c,) for c in cs] + [(a, b) for a in cs for b in cs]
+    # batches of three: every ordering of three distinct coordinates (the sorting
+    # permutation of a batch is an involution for sizes 1 and 2, but not for size 3) and
+    # every batch of three with one repeated coordinate
+    batches += [t for t in itertools.permutations(cs, 3)]
+    batches += [(a, b, c) for a in cs for b in cs for c in cs if len({a, b, c}) == 2]
+    return [(b, add) for b in batches for add in (False, True)]
+
+
+def _ops_first(dim):
+    """First operations (one case each): the full alphabet plus batches of four."""
+    cs = ALPHA[dim]
+    four = [t for t in itertools.permutations(cs, 4)] if len(cs) >= 4 else []
+    four += [(a, b, a, c) for a in cs for b in cs for c in cs if len({a, b, c}) == 3][:24]
+    return _ops(dim) + [(b, add) for b in four for add in (False, True)]
+
+
+def _ops_small(dim):
+    cs = ALPHA[dim]
+    batches = [(c,) for c in cs] + [(a, b) for a in cs for b in cs]
     return [(b, add) for b in batches for add in (False, True)]
 
 
 def cases(tier):
-    depth = {"quick": {1: 3, 2: 2}, "thorough": {1: 4, 2: 3}}[tier]
+    """One case = (dim, value_dim, first operation, alphabet, depth). The full alphabet
+    (batches of 1-3) is searched to depth 2 (quick) / 3 (thorough); the small alphabet
+    (batches of 1-2) one level deeper."""
     out = []
     for dim in (1, 2):
         for vdim in (1, 2):
-            for op in _ops(dim):
-                out.append({"dim": dim, "vdim": vdim, "first": [list(map(list, op[0])), op[1]], "depth": depth[dim]})
+            if tier == "quick":
+                d_full, d_small = 2, {1: 3, 2: 0}[dim]
+            else:
+                d_full = 3 if vdim == 1 else 2
+                d_small = {1: 4, 2: 3 if vdim == 1 else 0}[dim]
+            for op in _ops_first(dim):
+                out.append({"dim": dim, "vdim": vdim, "first": [list(map(list, op[0])), op[1]], "depth": d_full, "alpha": "full"})
+            if d_small:
+                for op in _ops_small(dim):
+                    out.append({"dim": dim, "vdim": vdim, "first": [list(map(list, op[0])), op[1]], "depth": d_small, "alpha": "small"})
     return out
 
 
@@ -95,7 +124,7 @@ def run_case(case) -> Outcome:
     out = Outcome()
     dim, vdim = case["dim"], case["vdim"]
     first = (tuple(tuple(c) for c in case["first"][0]), bool(case["first"][1]))
-    ops = _ops(dim)
+    ops = _ops_small(dim) if case.get("alpha") == "small" else _ops(dim)
     alpha = ALPHA[dim]
 
     def build(hist):
